@@ -141,7 +141,7 @@ var reLitName = regexp.MustCompile(`lit_[0-9a-f]{12}`)
 func (e *Engine) buildPrelude(solver string, body string) string {
 	var sb strings.Builder
 	switch solver {
-	case "z3", "z3-new":
+	case "z3", "z3-new", "z3-new-retry":
 		sb.WriteString("(set-option :smt.mbqi false)\n(set-option :smt.auto_config false)\n")
 	case "z3-mbqi":
 	case "cvc5":
